@@ -61,7 +61,8 @@ Definition check_par (prop : Z) (inp impl : sx) : sx :=
             if status =? 2 then [19; 9]                                              (* crashed *)
             else if status =? 0 then
               (* executed: exactly the requested TTL range, to the requested port, never wrapped *)
-              (if negb ((1 <=? mn) && (mn <=? mx) && (mx <=? 255)) then [19; 2]
+              (if (3 <=? pr) || ((pr =? 1) && (5 <=? me)) then [19; 10]        (* unknown protocol / TCP method executed *)
+               else if negb ((1 <=? mn) && (mn <=? mx) && (mx <=? 255)) then [19; 2]
                else if negb (zl_eqb st (zrange' mn (Z.to_nat (mx - mn + 1)))) then [19; 3]
                else if negb (dst_ok =? 1) then [19; 4]
                else if (negb (pr =? 2)) && negb (zl_eqb dports [if port =? 0 then 33434 else port] && (1 <=? (if port =? 0 then 33434 else port)) && ((if port =? 0 then 33434 else port) <=? 65535)) then [19; 5]
